@@ -13,6 +13,7 @@ import (
 	"encoding/json"
 	"errors"
 	"fmt"
+	"os"
 	"math/big"
 	"reflect"
 	"sort"
@@ -817,11 +818,19 @@ func c09Exec(t *testing.T, rng *vrng, transport string, plan []string) (c09In, c
 			go func() {
 				<-allowG
 				for k, ch := range []chan Result{S, G} {
+					// (a party that was told to stop waiting meanwhile already holds "none": its
+					// channel must still be emptied, or the monitor stands at it for ever)
+					put := func(o string) {
+						select {
+						case ges[k].done <- o:
+						default:
+						}
+					}
 					select {
 					case r := <-ch:
-						ges[k].done <- outcomeOf(r)
+						put(outcomeOf(r))
 					case <-time.After(20 * time.Second):
-						ges[k].done <- "none"
+						put("none")
 					}
 				}
 			}()
@@ -1085,6 +1094,12 @@ func TestVerifC09(t *testing.T) {
 		for _, p := range fixed {
 			emitCase(tr, p)
 		}
+	}
+	if os.Getenv("VERIF_C09_ONLY") != "" {
+		for i := 0; i < 40; i++ {
+			emitCase("rpc", strings.Split(os.Getenv("VERIF_C09_ONLY"), ","))
+		}
+		return
 	}
 	acts := []string{"send", "send", "watch", "watch", "round", "round", "round-all", "round-watch-inflight", "round-close-inflight", "close", "close-racing-watch",
 		"round-watch-during-delivery", "cancel-ok", "cancel-fail", "abandon", "block-query-fails-canceled", "block-query-fails-deadline"}
